@@ -1,5 +1,9 @@
 #!/bin/bash
-# builds the checker offline from /verif/checker
+# Builds the static checker offline from /verif/checker (x/tools is vendored).
 set -e
 cd "$(dirname "$0")"
-exit 0
+unset GOTOOLCHAIN GOSUMDB GOWORK
+export GOFLAGS=-mod=vendor GOPROXY=off GOWORK=off CGO_ENABLED=0
+mkdir -p bin evidence
+(cd checker && go build -o ../bin/mysyncsa .)
+echo "built $(pwd)/bin/mysyncsa"
